@@ -1,7 +1,7 @@
 /-
   C02 — battles are scheduled and decided by the standard rules (property theorems).
 -/
-import Gmars.Proofs.Abs
+import Gmars.Proofs.Queue
 
 namespace Gmars.Props.C02
 open Gmars Gmars.Spec
@@ -31,6 +31,34 @@ theorem split_order (P : Nat) (q : List Nat) (nxt jt : Nat) :
   · by_cases h2 : q.length + 1 < P <;> simp [h1, h2]
   · have : ¬ q.length + 1 < P := by omega
     simp [h1, this]
+
+/-- `queue_refines` (push): the ring buffer of queue.go behaves as a bounded FIFO list — pushing
+    never panics, appends at the back, and drops the new task exactly when the queue is full -/
+theorem queue_push_refines (q : PQ) (a : UInt64) (h : q.Inv) :
+    ∃ q', q.push a = .ok q' ∧ q'.Inv ∧ q'.size = q.size ∧
+      q'.toList = (if q.toList.length < q.size.toNat then q.toList ++ [a] else q.toList) :=
+  PQ.push_ok q a h
+
+/-- `queue_refines` (pop): tasks are taken from the front, in first-in-first-out order -/
+theorem queue_pop_refines (q : PQ) (h : q.Inv) :
+    ∃ q', q.pop = .ok (q.toList.head?, q') ∧ q'.Inv ∧ q'.size = q.size ∧ q'.toList = q.toList.tail :=
+  PQ.pop_ok q h
+
+/-- a fresh queue is empty and well formed for every process limit ≥ 1 -/
+theorem queue_new (size : UInt64) (h : 0 < size.toNat) :
+    (PQ.new size).Inv ∧ (PQ.new size).toList = [] ∧ (PQ.new size).size = size :=
+  PQ.new_inv size h
+
+/-- `Warrior.Queue()` returns the FIFO contents (process limits up to 2^63) -/
+theorem queue_values_refines (q : PQ) (h : q.Inv) (hs : q.size.toNat ≤ 2 ^ 63) : q.values = .ok q.toList :=
+  PQ.values_ok_of_size_le q h hs
+
+/-- the bound of `queue_values_refines` is tight: above 2^63 slots the index arithmetic of
+    `Values()` wraps (not reachable: such a queue needs 64 EiB) -/
+theorem queue_values_wraps_above_2_63 :
+    PQ.wrapExample.Inv ∧ 2 ^ 63 < PQ.wrapExample.size.toNat ∧
+    PQ.wrapExample.values ≠ .ok PQ.wrapExample.toList :=
+  ⟨PQ.values_wraps_above_2_63.1, PQ.values_wraps_above_2_63.2.1, PQ.values_wraps_above_2_63.2.2.2.2⟩
 
 example : enqueue 3 [7] [8, 9] = [7, 8, 9] ∧ enqueue 2 [7] [8, 9] = [7, 8] ∧ enqueue 1 [7] [8, 9] = [7] := by decide
 
